@@ -6,6 +6,8 @@ import (
 	"errors"
 	"fmt"
 	"github.com/spf13/viper"
+	"github.com/tilinna/clock"
+	"golang.org/x/time/rate"
 	"os"
 	"sort"
 	"strings"
@@ -35,11 +37,12 @@ type cfg struct {
 	Emit        bool
 	Outcomes    int  // number of provider outcome alternatives enumerated per call (1 = always found)
 	SlowRefresh bool // refresh period 20s with TTL 5s: entries are long expired when the refresh happens
+	Tight       bool // request budget of one provider call per second, burst 1: a batch that is due while the budget is used up has to wait for it, not be forgotten
 	Held        bool // provider calls made after the initial lookups do not return until the harness lets them: a call can span refresh ticks
 }
 
 func (c cfg) String() string {
-	return fmt.Sprintf("%s-b%d-idle%v-t%d-p%v-e%v-o%d-slow%v", strings.Join(c.Submit, ""), c.MaxBatch, c.Idle, c.Ticks, c.Peek, c.Emit, c.Outcomes, c.SlowRefresh) + map[bool]string{true: "-held"}[c.Held]
+	return fmt.Sprintf("%s-b%d-idle%v-t%d-p%v-e%v-o%d-slow%v", strings.Join(c.Submit, ""), c.MaxBatch, c.Idle, c.Ticks, c.Peek, c.Emit, c.Outcomes, c.SlowRefresh) + map[bool]string{true: "-held"}[c.Held] + map[bool]string{true: "-tight"}[c.Tight]
 }
 
 type call struct {
@@ -155,7 +158,20 @@ func body(c cfg, r *run) func(*vsched.Exec) {
 		// built as the gostatsd command builds it (this harness is compiled into cmd/gostatsd): cache periods and the
 		// request limiter come from the command line; the limiter is finite with a burst smaller than a batch
 		// (one token per provider call, never a wait worth mentioning)
-		ccp := newCachedInstancesFromViper(fx.Quiet(), provider{r}, viperFor(refresh, c.Idle, ttl, negTTL)).(*cloudprovider.CachedCloudProvider)
+		// the request limiter (golang.org/x/time/rate) runs on the mock clock; a wait for budget is a visible, cancellable wait
+		wclock := vsched.EnvGet("clock").(clock.Clock)
+		rate.VerifNow = func() time.Time { return wclock.Now() }
+		rate.VerifWait = func(wctx context.Context, d time.Duration) error {
+			t := wclock.NewTimer(d)
+			if vsched.Select(false, vsched.CaseRecv(t.C), vsched.CaseRecv(wctx.Done())) == 1 {
+				vsched.SelRecv2(wctx.Done())
+				t.Stop()
+				return wctx.Err()
+			}
+			vsched.SelRecv(t.C)
+			return nil
+		}
+		ccp := newCachedInstancesFromViper(fx.Quiet(), provider{r}, viperFor(refresh, c.Idle, ttl, negTTL, c.Tight)).(*cloudprovider.CachedCloudProvider)
 		r.ccp = ccp
 		vsched.GoNamed("ccp.Run", func() { ccp.Run(ctx) })
 		vsched.Quiesce("started") // Run has created its refresh ticker at t=0: ticks fire at exactly 10s, 20s
@@ -197,6 +213,15 @@ func body(c cfg, r *run) func(*vsched.Exec) {
 		vsched.Quiesce("phase1")
 		vtime.Advance(mock, 10*time.Millisecond) // whatever was collected after the first window
 		vsched.Quiesce("phase1b")
+		if c.Tight {
+			// every further provider call has to wait for its second of budget
+			for i := 0; i < len(c.Submit)+1; i++ {
+				vtime.Advance(mock, time.Second)
+				vsched.Quiesce("budget")
+				vtime.Advance(mock, 10*time.Millisecond)
+				vsched.Quiesce("budget-batch-window")
+			}
+		}
 		r.checkQuiescent("after submissions", mock.Now(), false)
 		for t := 0; t < c.Ticks; t++ {
 			before, _, _ := ccp.VerifDump()
@@ -235,15 +260,15 @@ func body(c cfg, r *run) func(*vsched.Exec) {
 	}
 }
 
-var vipers = map[[4]time.Duration]*viper.Viper{}
+var vipers = map[[5]time.Duration]*viper.Viper{}
 
-func viperFor(refresh, idle, ttl, negTTL time.Duration) *viper.Viper {
-	k := [4]time.Duration{refresh, idle, ttl, negTTL}
+func viperFor(refresh, idle, ttl, negTTL time.Duration, tight bool) *viper.Viper {
+	k := [5]time.Duration{refresh, idle, ttl, negTTL, map[bool]time.Duration{true: 1}[tight]}
 	if v := vipers[k]; v != nil {
 		return v
 	}
 	old := os.Args
-	os.Args = []string{"gostatsd", "--backends=null", "--max-cloud-requests=1000000000", "--burst-cloud-requests=1",
+	os.Args = []string{"gostatsd", "--backends=null", "--max-cloud-requests=" + map[bool]string{false: "1000000000", true: "1"}[tight], "--burst-cloud-requests=1",
 		verifDur("cloud-cache-refresh-period", refresh), verifDur("cloud-cache-evict-after-idle-period", idle), verifDur("cloud-cache-ttl", ttl), verifDur("cloud-cache-negative-ttl", negTTL)}
 	v, _, err := setupConfiguration()
 	os.Args = old
@@ -417,18 +442,20 @@ func check(c cfg, r *run, outcomes map[string]struct{}) func(*vsched.Exec, vsche
 func configs() []cfg {
 	never := 1000 * time.Hour
 	cs := []cfg{
-		{[]string{"a", "b"}, 2, never, 0, true, false, 4, false, false},
-		{[]string{"a"}, 1, never, 3, true, false, 2, true, false},
-		{[]string{"a", "a"}, 2, never, 1, false, true, 2, false, false},
-		{[]string{"a"}, 1, never, 2, true, false, 3, false, false},
-		{[]string{"a", "b"}, 1, 12 * time.Second, 2, false, true, 2, false, false},
-		{[]string{"a"}, 2, 12 * time.Second, 2, true, true, 2, false, false},
+		{Submit: []string{"a", "b"}, MaxBatch: 2, Idle: never, Ticks: 0, Peek: true, Outcomes: 4},
+		{Submit: []string{"a"}, MaxBatch: 1, Idle: never, Ticks: 3, Peek: true, Outcomes: 2, SlowRefresh: true},
+		{Submit: []string{"a", "a"}, MaxBatch: 2, Idle: never, Ticks: 1, Emit: true, Outcomes: 2},
+		{Submit: []string{"a"}, MaxBatch: 1, Idle: never, Ticks: 2, Peek: true, Outcomes: 3},
+		{Submit: []string{"a", "b"}, MaxBatch: 1, Idle: 12 * time.Second, Ticks: 2, Emit: true, Outcomes: 2},
+		{Submit: []string{"a"}, MaxBatch: 2, Idle: 12 * time.Second, Ticks: 2, Peek: true, Emit: true, Outcomes: 2},
 		// three sources, batch 1, refresh 10s / TTL 15s / idle 25s: at the 20s tick all three are expired and queued
 		// behind one slow provider call; at the 30s tick they are idle and must be evicted although the backlog is still there
 		{Submit: []string{"a", "b", "c"}, MaxBatch: 1, Idle: 25 * time.Second, Ticks: 3, Outcomes: 1, Held: true},
+		// one provider call per second: the second and third source wait for their budget
+		{Submit: []string{"a", "b", "c"}, MaxBatch: 1, Idle: never, Ticks: 1, Outcomes: 1, Tight: true},
 	}
 	if vrt.Thorough() {
-		cs = append(cs, cfg{[]string{"a", "b", "a"}, 2, never, 1, true, true, 4, false, false}, cfg{[]string{"a", "b"}, 2, 12 * time.Second, 2, true, true, 4, false, false}, cfg{[]string{"a", "b", "c"}, 2, never, 2, false, false, 3, false, false}, cfg{[]string{"a", "b"}, 2, never, 3, true, true, 3, true, false})
+		cs = append(cs, cfg{Submit: []string{"a", "b", "a"}, MaxBatch: 2, Idle: never, Ticks: 1, Peek: true, Emit: true, Outcomes: 4}, cfg{Submit: []string{"a", "b"}, MaxBatch: 2, Idle: 12 * time.Second, Ticks: 2, Peek: true, Emit: true, Outcomes: 4}, cfg{Submit: []string{"a", "b", "c"}, MaxBatch: 2, Idle: never, Ticks: 2, Outcomes: 3}, cfg{Submit: []string{"a", "b"}, MaxBatch: 2, Idle: never, Ticks: 3, Peek: true, Emit: true, Outcomes: 3, SlowRefresh: true})
 	}
 	return cs
 }
